@@ -286,6 +286,9 @@ def build(tier):
     ]
     from . import market_batch
     O += market_batch.build_for('C07', tier)
+    # settle_deal_payments as a whole (shared with C01): collateral slashed for missed activations is burnt in full
+    from . import C01
+    O += [o for o in C01.build_settle(tier)]
     return O
 
 
